@@ -42,7 +42,23 @@ func Alphabet() []*regattapb.Command {
 	}
 }
 
+// BigAlphabet is the alphabet of the large-entry family: every entry stages 4 MiB, so that a call of k
+// entries holds 4k MiB in its batch when it ends (an apply call whose batch crosses 8, 12, 16, 20 or
+// 24 MiB does so exactly at its last entry in some batching).
+func BigAlphabet() []*regattapb.Command {
+	big := func(c byte) string { return strings.Repeat(string([]byte{c}), 4<<20) }
+	return []*regattapb.Command{
+		Put("big-0", big('p'), false),
+		WithLeader(Put("big-1", big('q'), false), 41),
+		Put("big-2", big('r'), false),
+		Put("big-0", big('s'), true),
+		Txn(Cmps(Exists("big-1", nil)), Ops(OpPut("big-3", big('t'), false), OpDel("big-2", nil, false, true)), nil),
+		WithLeader(Put("big-4", big('u'), false), 42),
+	}
+}
+
 type Case struct {
+	Big    bool     `json:"big,omitempty"` // Log indexes BigAlphabet
 	Log    []int    `json:"log"`
 	Cuts   int      `json:"cuts"`             // bitmask: bit i set = cut after entry i
 	Interp string   `json:"interp,omitempty"` // interposition kind
@@ -325,7 +341,53 @@ func Run(r *evid.Run) {
 		r.Cap(fmt.Sprintf("deadline: %d of %d logs", done, total))
 	}
 	r.Extra("logs", done)
+	runBig(r)
 	r.Sample(map[string]any{"log": describe(alpha, []int{1, 0}), "cuts": "0b0 vs 0b1", "interposition": "snap:sc:stale at 2"})
+}
+
+// runBig: one log of six 4 MiB entries under all 2^5 batchings, each also followed by close+reopen.
+// What a size-triggered shortcut inside an apply call (an early commit, a flush, a split) does to the
+// recorded indices, results and content must not depend on where the calls were cut.
+func runBig(r *evid.Run) {
+	alpha := BigAlphabet()
+	log := []int{0, 1, 2, 3, 4, 5}
+	n := len(log)
+	canonCuts := (1 << n) - 1
+	canon := run(alpha, Case{Log: log, Cuts: canonCuts})
+	m := refkv.New()
+	var wantRes []string
+	for i, ci := range log {
+		v, cr := m.Apply(index(i), fsmx.Wire(alpha[ci]))
+		wantRes = append(wantRes, fsmx.ExpectStr(v, cr))
+	}
+	mr := m.Range(&regattapb.RequestOp_Range{Key: wild, RangeEnd: wild})
+	modelObs := obs{results: wantRes, content: fsmx.KVs(mr.Kvs), applied: m.Applied, leader: m.Leader, hash: canon.hash}
+	if s := diffSig(modelObs, canon); s != "" {
+		r.Violate("big/canonical-vs-model/"+s, fmt.Sprintf("canonical run: %s; model: %s", canon, modelObs), Case{Big: true, Log: log, Cuts: canonCuts, Desc: describe(alpha, log)})
+	}
+	r.Outcome("big "+canon.String(), true)
+	total := int64(2 << (n - 1))
+	done := par.For(total, r.Expired, func(i int64) {
+		c := Case{Big: true, Log: log, Cuts: int(i >> 1)}
+		if i&1 == 1 {
+			c.Interp, c.At = "reopen", n
+		}
+		got := run(alpha, c)
+		r.Evaluations.Add(1)
+		r.AddExtra("big_entry_runs", 1)
+		if s := diffSig(canon, got); s != "" {
+			c.Desc = describe(alpha, log)
+			kind := "batching/"
+			if c.Interp != "" {
+				kind = "interposition/reopen/"
+			}
+			r.Violate("big/"+kind+s, fmt.Sprintf("cuts=%b: %s; canonical: %s", c.Cuts, got, canon), c)
+		}
+	})
+	if done < total {
+		r.Cap(fmt.Sprintf("deadline: %d of %d large-entry runs", done, total))
+	}
+	r.Rule("large entries: one log of six entries staging 4 MiB each (puts with and without leader index and prev_kv, a transaction with a put and a counted delete) under all 2^5 batchings, each also followed by close+reopen: a call of k entries ends with 4k MiB staged, so every multiple of 4 MiB up to 24 MiB is crossed exactly at the last entry of some call; same oracle")
 }
 
 func Replay(raw json.RawMessage) (string, bool) {
@@ -334,6 +396,9 @@ func Replay(raw json.RawMessage) (string, bool) {
 		return err.Error(), false
 	}
 	alpha := Alphabet()
+	if c.Big {
+		alpha = BigAlphabet()
+	}
 	n := len(c.Log)
 	canon := run(alpha, Case{Log: c.Log, Cuts: (1 << n) - 1})
 	got := run(alpha, c)
